@@ -526,6 +526,11 @@ class Tr:
                 if tgt.get("kind") == "DeclRefExpr":
                     ts.append(gname(tgt["referencedDecl"]["name"]))
                     continue
+                if tgt.get("kind") == "MemberExpr" and name in self.known and self.known[name][1] != "store":
+                    # &s.f / &p->f handed to a callee that does not write through it: the sub-struct as a store
+                    b, key = self.lvalue_key(tgt)
+                    ts.append('(ssub "%s" %s)' % (key, gname(b)))
+                    continue
                 raise Untranslatable("address-of argument")
             ga, ta = self.expr(a)
             g += ga
@@ -786,6 +791,11 @@ class Tr:
             if ll.get("kind") == "DeclRefExpr":
                 return self.guarded(g, "%slet %s := %s in\n%s" % (bind, gname(ll["referencedDecl"]["name"]), val, nxt()))
             b, key = self.lvalue_key(ll)
+            lq = (ll.get("type") or {}).get("desugaredQualType") or (ll.get("type") or {}).get("qualType", "")
+            if lq.startswith("struct ") and "*" not in lq:
+                if not bind:
+                    raise Untranslatable("struct-valued member assignment from a non-call")
+                return self.guarded(g, '%slet %s := ssetsub "%s" %s %s in\n%s' % (bind, gname(b), key, val, gname(b), nxt()))
             return self.guarded(g, '%slet %s := sset "%s" %s %s in\n%s' % (bind, gname(b), key, val, gname(b), nxt()))
         if kind == "UnaryOperator" and s.get("opcode") in ("++", "--"):
             tgt = inner(s)[0]
@@ -2004,6 +2014,20 @@ LEAFS = [
     ("rtrlib/lib/ipv6.c", "lrtr_ipv6_get_bits", False),
     ("third-party/tommyds/tommyhashlin.c", "tommy_inthash_u32", False),
 ]
+# address helpers the trie is built on (C01 / C02: covering test, exact match, branch bit): own output file
+# Gen/GeneratedIp.v (needs Base/CSemSub.v for sub-struct arguments), so that Generated.v and everything built on it
+# does not change when this list grows
+IP_LEAFS = [
+    ("rtrlib/lib/ipv4.c", "lrtr_ipv4_addr_equal", False),
+    ("rtrlib/lib/ipv6.c", "lrtr_ipv6_addr_equal", False),
+    ("rtrlib/lib/ipv4.c", "lrtr_ipv4_get_bits", False),
+    ("rtrlib/lib/ip.c", "lrtr_ip_addr_is_zero", False),
+    ("rtrlib/lib/ip.c", "lrtr_ip_addr_equal", False),
+    ("rtrlib/lib/ip.c", "lrtr_ip_addr_get_bits", False),
+]
+IP_ENUMS = [("rtrlib/lib/ip.c", "lrtr_ip_version")]
+IP_OUT = os.path.join(vlib.THEORIES, "Gen", "GeneratedIp.v")
+_MAIN_CTX = {}
 ENUMS = [
     ("rtrlib/rtr/rtr.c", "rtr_socket_state"), ("rtrlib/rtr_mgr.c", "rtr_mgr_status"),
     ("rtrlib/rtr/rtr.c", "rtr_interval_mode"), ("rtrlib/rtr/rtr.c", "rtr_rtvals"),
@@ -2078,6 +2102,46 @@ def generate():
             w("(* %s could not be translated: %s *)" % (fname, str(e).replace("*)", "* )")))
             w("Definition %s_untranslated := tt.\n" % fname)
     w("Definition translator_problems : list string := [%s]." % "; ".join(coq_string(p[:200]) for p in problems))
+    _MAIN_CTX.update(known=dict(known), enums=dict(enums_all), sizes=sizes, tables=tables)
+    return "\n".join(out) + "\n", problems
+
+
+def generate_ip():
+    """text of Gen/GeneratedIp.v: the lrtr_ip_addr layer over the already translated bit functions"""
+    out, problems = [], []
+    w = out.append
+    w("(* GENERATED by tools/c2v.py from the repository sources - do not edit. *)")
+    w("From RtrV Require Import Base.CSem Base.CSemSub Gen.Generated.")
+    w("Local Open Scope string_scope.\nLocal Open Scope Z_scope.\n")
+    known = dict(_MAIN_CTX.get("known", {}))
+    enums_all = dict(_MAIN_CTX.get("enums", {}))
+    for cfile, en in IP_ENUMS:
+        try:
+            vals = enum_values(cfile, en)
+            w("Definition enum_%s : list (string * Z) :=\n  [%s]." % (en, ";\n   ".join("(%s, %d)" % (coq_string(n), v) for n, v in vals)))
+            for n, v in vals:
+                if n not in enums_all:
+                    w("Definition %s : Z := %d." % ("c_" + n, v))
+                    enums_all[n] = v
+            w("")
+        except Exception as e:  # noqa: BLE001
+            problems.append("enum %s: %s" % (en, e))
+            w("Definition enum_%s_untranslated := tt.\n" % en)
+    for cfile, fname, mut in IP_LEAFS:
+        try:
+            fn = find_def(cfile, fname)
+            if fn is None:
+                raise Untranslatable("definition not found")
+            tr = Tr(fn, known, enums_all, _MAIN_CTX.get("sizes", {}), _MAIN_CTX.get("tables", {}))
+            text, sig = tr.function(mutates=mut)
+            known[fname] = sig
+            w("(* %s : %s *)" % (cfile, fname))
+            w(text)
+        except Exception as e:  # noqa: BLE001
+            problems.append("function %s: %s" % (fname, e))
+            w("(* %s could not be translated: %s *)" % (fname, str(e).replace("*)", "* )")))
+            w("Definition %s_untranslated := tt.\n" % fname)
+    w("Definition ip_translator_problems : list string := [%s]." % "; ".join(coq_string(p[:200]) for p in problems))
     return "\n".join(out) + "\n", problems
 
 
@@ -2122,6 +2186,9 @@ def main():
     write_if_changed(SKEL_OUT, stext, "LockSkeletons.v")
     mtext, mproblems = generate_mem()
     write_if_changed(MEM_OUT, mtext, "GeneratedMem.v")
+    itext, iproblems = generate_ip()
+    write_if_changed(IP_OUT, itext, "GeneratedIp.v")
+    mproblems = mproblems + iproblems
     for p in problems + sproblems + mproblems:
         print("c2v: problem:", p)
     return 0
